@@ -95,6 +95,9 @@ func ZzvC06Ledger() {
 			if ref == 0 {
 				zzverif.Assert(!ok, "a CPU no live pod holds is not in the ledger")
 			} else {
+				if ref == 2 {
+					zzverif.Reach("a-cpu-shared-by-two-pods")
+				}
 				zzverif.Assert(ok && info.RefCount == ref, "the reference count of a CPU is the number of live pods holding it")
 			}
 			zzverif.Assert(ref <= maxRef, "no CPU is held by more pods than the sharing limit allows")
